@@ -60,10 +60,12 @@ func (z *zipCtx) norm(e ast.Expr) string {
 // config: events of the sender's methods. Same-receiver helper calls (doZip) are inlined.
 func (z *zipCtx) config(inline bool) paths.Config {
 	info := z.fi.Pkg.TypesInfo
+	in := newInliner(z.p, z.fi, func(fn *types.Func) bool { return fn.Name() == "sendAndClear" || (!inline && fn.Name() == "doZip") })
 	cfg := paths.Config{
-		Info: info,
+		Info:   info,
+		Expand: in.Expand,
 		Cond: func(c ast.Expr, v bool) *paths.Event {
-			return &paths.Event{Kind: "COND", Arg: fmt.Sprintf("%s=%v", z.norm(c), v), Pos: c.Pos()}
+			return &paths.Event{Kind: "COND", Arg: condKey(info, z.norm, c, v), Pos: c.Pos()}
 		},
 		Classify: func(n ast.Node) []paths.Event {
 			var out []paths.Event
@@ -141,24 +143,9 @@ func (z *zipCtx) config(inline bool) paths.Config {
 			return out
 		},
 	}
-	if inline {
-		cfg.Inline = func(call *ast.CallExpr) *ast.BlockStmt {
-			sel, ok := call.Fun.(*ast.SelectorExpr)
-			if !ok {
-				return nil
-			}
-			if id, ok := ast.Unparen(sel.X).(*ast.Ident); !ok || id.Name != z.recv {
-				return nil
-			}
-			if sel.Sel.Name != "doZip" {
-				return nil
-			}
-			if fi := zipMethod(z.p, "doZip"); fi != nil {
-				return fi.Decl.Body
-			}
-			return nil
-		}
-	}
+	// unexported helpers of the sender (doZip, extracted batch helpers) are followed, parameters
+	// replaced by the arguments; sendAndClear is the FLUSH event itself
+	cfg.Inline = in.Body
 	return cfg
 }
 
@@ -280,7 +267,7 @@ func c16Paths(p *core.Program, r *core.Report) {
 					}
 					continue
 				}
-				if !(pa.HasArg("COND", "buffer.Len()==0=false") || pa.HasArg("COND", "buf.Len()==0=false") || pa.HasArg("COND", "buffer.Len()>0=true")) {
+				if !(pa.HasArg("COND", cc("buffer.Len()", "==", "0", false)) || pa.HasArg("COND", cc("buf.Len()", "==", "0", false)) || pa.HasArg("COND", cc("buffer.Len()", ">", "0", true)) || pa.HasArg("COND", cc("buf.Len()", ">", "0", true))) {
 					cnt = append(cnt, "a pack is sent without testing that the buffer is non-empty")
 				}
 				ci := -1
@@ -379,8 +366,8 @@ func c16Paths(p *core.Program, r *core.Report) {
 			for _, pa := range ps {
 				comp := pa.Has("COMPRESS")
 				st := pa.HasArg("SETSTATUS", "pack.ZIPPED")
-				g1 := pa.HasArg("COND", "p.Status!=0=false") || pa.HasArg("COND", "p.Status==0=true")
-				g2 := pa.HasArg("COND", "len(p.Records)<logsinkZipMinSize=false") || pa.HasArg("COND", "len(p.Records)>=logsinkZipMinSize=true")
+				g1 := pa.HasArg("COND", cc("p.Status", "==", "0", true))
+				g2 := pa.HasArg("COND", cc("len(p.Records)", ">=", "logsinkZipMinSize", true))
 				if comp != st {
 					zp = append(zp, "Status=ZIPPED and compression do not go together on a path: "+pa.String())
 				}
@@ -410,20 +397,20 @@ func c16Paths(p *core.Program, r *core.Report) {
 				if pa.Index("ENCODE") < 0 || pa.Index("ENCODE") > wi {
 					cnt = append(cnt, "the bytes written are not the WritePack encoding of the record")
 				}
-				sizeT := pa.HasArg("COND", "buffer.Len()>=logsinkMaxBufferSize=true")
-				sizeF := pa.HasArg("COND", "buffer.Len()>=logsinkMaxBufferSize=false")
+				sizeT := pa.HasArg("COND", cc("buffer.Len()", ">=", "logsinkMaxBufferSize", true))
+				sizeF := pa.HasArg("COND", cc("buffer.Len()", ">=", "logsinkMaxBufferSize", false))
 				if !sizeT && !sizeF {
 					trg = append(trg, "the buffer size limit is not tested after appending on the path "+pa.String())
 				}
-				waitT := pa.HasArg("COND", "p.Time-firstTime>=logsinkMaxWaitTime=true")
+				waitT := pa.HasArg("COND", cc("p.Time-firstTime", ">=", "logsinkMaxWaitTime", true))
 				if (sizeT || waitT) && !pa.Has("FLUSH") {
 					trg = append(trg, "a limit is reached but the batch is not flushed")
 				}
 				if !sizeT && !waitT && pa.Has("FLUSH") {
 					trg = append(trg, "flushes although no limit is reached")
 				}
-				open := pa.HasArg("COND", "firstTime==0=false")
-				if open && !sizeT && !waitT && !pa.HasArg("COND", "p.Time-firstTime>=logsinkMaxWaitTime=false") {
+				open := pa.HasArg("COND", cc("firstTime", "==", "0", false))
+				if open && !sizeT && !waitT && !pa.HasArg("COND", cc("p.Time-firstTime", ">=", "logsinkMaxWaitTime", false)) {
 					trg = append(trg, "with a batch open the waiting-time limit is not tested")
 				}
 			}
